@@ -197,7 +197,7 @@ def listing(repo):
             with open(os.path.join(repo, n)) as f:
                 for line in f:
                     try:
-                        fn, s, e, sm = line.split()
+                        fn, s, e, sm = line.rsplit(None, 3)
                     except ValueError:
                         ls.append('malformed')
                         continue
@@ -289,6 +289,8 @@ def gen_scenario(rng, size):
     prof_z = rng.choice(['never', 'always', 'mixed'])
     prof_k = rng.choice(['never', 'never', 'mixed', 'often'])
     steps = [dict(op='commit', recs=[[0, rng.choice([1, 30, 120])]])]
+    if rng.random() < 0.12:
+        steps = []                       # very small database: only the magic bytes at the first backup
     inprog = False
     nb = 0
     for _ in range(size):
@@ -297,6 +299,9 @@ def gen_scenario(rng, size):
             if r < 0.55:
                 steps.append(mk_backup(rng, prof_q, prof_z, prof_k))
                 nb += 1
+            elif inprog == 'torn':
+                steps.append(dict(op='untorn'))
+                inprog = False
             elif r < 0.80:
                 steps.append(dict(op='finish'))
                 inprog = False
@@ -310,16 +315,30 @@ def gen_scenario(rng, size):
                 recs = [[rng.choice([0, 1, 1, 2, 3, 4]), rng.choice([1, 5, 40, 40, 150, 400])]
                         for _ in range(rng.choice([1, 1, 2]))]
                 r2 = rng.random()
+                st = dict(op='commit', recs=recs)
                 if r2 < 0.03:
                     recs[-1][1] = rng.choice([16300, 17000, 33000])    # beyond one READCHUNK
                 elif r2 < 0.06:
                     recs[-1][1] = -16384                               # end exactly on a chunk boundary
-                steps.append(dict(op='commit', recs=recs))
+                elif r2 < 0.075:
+                    recs[-1][1] = rng.choice([66000, 70000])           # grows by more than 64 KiB
+                elif r2 < 0.15:
+                    st['recs'] = []                                    # an empty transaction
+                if rng.random() < 0.1:
+                    st['meta'] = rng.choice([1, 40, 300])              # user / description / extension
+                steps.append(st)
         elif r < 0.46:
             steps.append(dict(op='pack', back=rng.choice([0, 0, 1, 2, 5]), gc=rng.random() < 0.4))
-        elif r < 0.56:
-            steps.append(dict(op='begin', recs=[[rng.choice([1, 2, 5]), rng.choice([1, 40, 300])]]))
+        elif r < 0.55:
+            recs = [[rng.choice([1, 2, 5]), rng.choice([1, 40, 300])]]
+            steps.append(dict(op='begin', recs=recs if rng.random() < 0.85 else []))
             inprog = True
+        elif r < 0.58:
+            # a torn tail: part of a transaction record appended to the file (crashed writer)
+            steps.append(dict(op='torn', frac=rng.choice([0.01, 0.1, 0.5, 0.9, 0.99]), c=rng.random() < 0.5))
+            inprog = 'torn'
+        elif r < 0.60 and nb:
+            steps.append(dict(op='moverepo'))
         else:
             steps.append(mk_backup(rng, prof_q, prof_z, prof_k))
             nb += 1
@@ -340,7 +359,10 @@ def mk_backup(rng, prof_q, prof_z, prof_k):
         fl += 'z'
     if (prof_k == 'often' and rng.random() < 0.6) or (prof_k == 'mixed' and rng.random() < 0.25):
         fl += 'k'
-    return dict(op='backup', flags=fl or '-', dt=rng.choice([1, 1, 1, 2, 3, 9]))
+    st = dict(op='backup', flags=fl or '-', dt=rng.choice([1, 1, 1, 2, 3, 9]))
+    if rng.random() < 0.12:
+        st['also2'] = rng.choice(['-', 'z', 'F', 'Fz'])     # feed a second repository too (slow mode)
+    return st
 
 
 # ------------------------------------------------------------------ the direct oracle's record
@@ -378,9 +400,62 @@ class Run:
         self.trace = []
         self.excluded_notes = []
         self.outside = None
+        self.orng = __import__('random').Random(case.get('final', {}).get('seed', 0) * 31 + 7)
+        self.paths = case.get('paths') or 'abs'
+        self.repo2 = None        # a second repository fed from the same Data.fs (oracle only)
+        self.held2 = []
+        self.nmoved = 0
+        if self.paths == 'space':
+            os.rmdir(self.repo)
+            self.repo = os.path.join(self.dir, 'my repo')
+            os.mkdir(self.repo)
+        self.link = os.path.join(self.dir, 'repo-link')
+        if self.paths == 'symlink':
+            os.symlink(self.repo, self.link)
 
     def count(self, k, n=1):
         self.counts[k] = self.counts.get(k, 0) + n
+
+    # ---- command lines: every spelling of the options and of the paths ------------------------
+    LONG = {'-B': '--backup', '-R': '--recover', '-V': '--verify', '-F': '--full', '-Q': '--quick',
+            '-z': '--gzip', '-k': '--kill-old-on-full', '-w': '--with-verify', '-v': '--verbose'}
+    LONGV = {'-r': '--repository', '-f': '--file', '-D': '--date', '-o': '--output'}
+
+    def path_arg(self, path, is_dir=False):
+        """`path` (absolute, under self.dir) as the scenario's path style spells it"""
+        st = self.paths
+        if is_dir and st == 'symlink' and path == self.repo:
+            path = self.link
+        if st in ('rel', 'relslash'):
+            path = os.path.relpath(path, self.dir)
+            if st == 'relslash':
+                path = './' + path
+        if is_dir and st in ('slash', 'relslash'):
+            path += '/'
+        return path
+
+    def argv(self, mode, flags=(), repo=None, **valued):
+        """-B/-R/-V command line; short and long option names, -v, and option order vary"""
+        r = self.orng
+        items = [[mode]] + [[f] for f in flags]
+        items.append(['-r', self.path_arg(repo or self.repo, True) if repo is None or repo == self.repo
+                      else repo])
+        for k, v in valued.items():
+            if v is not None:
+                items.append(['-' + k, self.path_arg(v) if k in ('f', 'o') else v])
+        if r.random() < 0.15:
+            items.append(['-v'])
+        if r.random() < 0.3:
+            r.shuffle(items)
+        out = []
+        for it in items:
+            if len(it) == 1:
+                out.append(self.LONG[it[0]] if r.random() < 0.3 else it[0])
+            elif r.random() < 0.3:
+                out.append('%s=%s' % (self.LONGV[it[0]], it[1]))
+            else:
+                out += it
+        return out
 
     def emit(self, op, obs):
         self.lines.append((op, obs))
@@ -424,6 +499,8 @@ class Run:
         _FT.now = START
         _FT.ticks = self.case.get('tick') or None
         _FT.k = 0
+        cwd = os.getcwd()
+        os.chdir(self.dir)               # relative path styles are relative to the scenario directory
         try:
             self.sync_source()
             for st in self.case['steps']:
@@ -431,14 +508,15 @@ class Run:
             self.final_phase()
         finally:
             try:
-                if self.txn is not None:
+                if self.txn is not None and self.txn != 'torn':
                     self.fs.tpc_abort(self.txn)
                 self.fs.close()
             except Exception:
                 pass
+            os.chdir(cwd)
             shutil.rmtree(self.dir, ignore_errors=True)
 
-    def _begin_store_vote(self, recs):
+    def _begin_store_vote(self, recs, meta=0):
         from ZODB.Connection import TransactionMetaData
         from ZODB.TimeStamp import TimeStamp
         from ZODB.tests.MinPO import MinPO
@@ -446,7 +524,10 @@ class Run:
         from ZODB.utils import p64, z64
         self.ntid += 1
         tid = TimeStamp(2020, 1, 1, 0, self.ntid // 60, self.ntid % 60).raw()
-        t = TransactionMetaData()
+        if meta:
+            t = TransactionMetaData('u' * meta, 'd' * (meta // 2), {'e': 'x' * (meta // 3)})
+        else:
+            t = TransactionMetaData()
         self.fs.tpc_begin(t, tid=tid)
         seen = set()
         for oid, size in recs:
@@ -476,10 +557,10 @@ class Run:
     def do_commit(self, st):
         if self.txn is not None:
             return
-        t, tid = self._begin_store_vote(st['recs'])
+        t, tid = self._begin_store_vote(st['recs'], st.get('meta', 0))
         self.fs.tpc_finish(t)
         self.tids.append(tid)
-        self.count('op:commit')
+        self.count('op:commit' + ('(empty transaction)' if not st['recs'] else ''))
         self.sync_source()
 
     def do_begin(self, st):
@@ -490,7 +571,7 @@ class Run:
         self.sync_source()
 
     def do_finish(self, st):
-        if self.txn is None:
+        if self.txn is None or self.txn == 'torn':
             return
         self.fs.tpc_finish(self.txn)
         self.tids.append(self.txn_tid)
@@ -499,12 +580,56 @@ class Run:
         self.sync_source()
 
     def do_abort(self, st):
-        if self.txn is None:
+        if self.txn is None or self.txn == 'torn':
             return
         self.fs.tpc_abort(self.txn)
         self.txn = None
         self.count('op:abort')
         self.sync_source()
+
+    def do_torn(self, st):
+        """a crashed writer: the first part of a transaction record sits after the committed end"""
+        if self.txn is not None or getattr(self, 'torn', False):
+            return
+        c, t = self.source()
+        if len(c) <= 4 or t:
+            return
+        import struct
+        tl = struct.unpack('>Q', c[-8:])[0]
+        last = bytearray(c[len(c) - tl - 8:])          # the last complete transaction record
+        last[:8] = struct.pack('>Q', struct.unpack('>Q', bytes(last[:8]))[0] + 1000)
+        if st.get('c'):
+            last[16:17] = b'c'
+        k = max(1, min(len(last) - 1, int(len(last) * st.get('frac', 0.5))))
+        with open(self.fsn, 'ab') as f:
+            f.write(bytes(last[:k]))
+        self.torn = True
+        self.txn = 'torn'                                # blocks commits / packs until `untorn`
+        self.count('op:torn-tail')
+        self.sync_source()
+
+    def do_untorn(self, st):
+        if not getattr(self, 'torn', False):
+            return
+        with open(self.fsn, 'r+b') as f:
+            f.truncate(self.fs.getSize())
+        self.torn = False
+        self.txn = None
+        self.sync_source()
+
+    def do_moverepo(self, st):
+        """the repository directory is renamed; later backups go on in the moved directory, whose
+        .dat files then name files under the old path"""
+        if self.paths == 'space':
+            return
+        self.nmoved += 1
+        new = os.path.join(self.dir, 'repo-moved-%d' % self.nmoved)
+        os.rename(self.repo, new)
+        self.repo = new
+        if self.paths == 'symlink':
+            os.unlink(self.link)
+            os.symlink(self.repo, self.link)
+        self.count('op:repository-moved')
 
     def do_pack(self, st):
         from ZODB.TimeStamp import TimeStamp
@@ -544,7 +669,7 @@ class Run:
         if not ls:
             return True
         try:
-            _fn, s, e, sm = ls[-1].split()
+            _fn, s, e, sm = ls[-1].rsplit(None, 3)
             s, e = int(s), int(e)
         except ValueError:
             return True
@@ -572,7 +697,7 @@ class Run:
                 self.emit('qd %s' % d14(now), '1' if qd else '0')
             if quick_decides:
                 self.count('quick-backup:QuickDetectable=%s' % qd)
-        argv = ['-B', '-r', self.repo, '-f', self.fsn] + ['-' + c for c in flags]
+        argv = self.argv('-B', ['-' + c for c in flags], f=self.fsn)
         _FT.readings = []
         status, _out, msg = run_main(argv)
         after = set(os.listdir(self.repo))
@@ -690,9 +815,7 @@ class Run:
                 f.write(STALE_FILE)
             with open(self.out + '.index', 'wb') as f:
                 f.write(STALE_INDEX)
-        argv = ['-R', '-r', self.repo] + (['-D', date] if date else []) + (['-w'] if w else [])
-        if mode == 'o':
-            argv += ['-o', self.out]
+        argv = self.argv('-R', ['-w'] if w else [], D=date or None, o=self.out if mode == 'o' else None)
         status, out, msg = run_main(argv)
         kind = err_kind(status, msg)
         self.count('recover:' + kind)
@@ -758,7 +881,7 @@ class Run:
         return obs
 
     def verify(self, quick):
-        argv = ['-V', '-r', self.repo] + (['-Q'] if quick else [])
+        argv = self.argv('-V', ['-Q'] if quick else [])
         now = _FT.now
         status, _out, msg = run_main(argv)
         kind = err_kind(status, msg)
